@@ -358,7 +358,7 @@ func CopyObject(db Backend, srcBucket, srcKey, dstBucket, dstKey string, meta ma
 		c.Contents = ioutil.NopCloser(bytes.NewReader(buf))
 	}
 
-	_, err = db.PutObject(dstBucket, dstKey, meta, c.Contents, c.Size)
+	put, err := db.PutObject(dstBucket, dstKey, meta, c.Contents, c.Size)
 	if err != nil {
 		return
 	}
@@ -366,6 +366,7 @@ func CopyObject(db Backend, srcBucket, srcKey, dstBucket, dstKey string, meta ma
 	return CopyObjectResult{
 		ETag:         `"` + hex.EncodeToString(c.Hash) + `"`,
 		LastModified: NewContentTime(time.Now()),
+		VersionID:    put.VersionID,
 	}, nil
 }
 
